@@ -56,6 +56,9 @@ def _gen_cases(tier, seed):
                 plist.append([{'at': s0, 'act': ['pause', 'p']}, {'at': 'q', 'act': ['abort_task']}, {'at': 'q', 'act': end}])
                 plist.append([{'at': s0, 'act': ['pause', 'p']}, {'at': 'q', 'act': ['abort_task']}, {'at': 'q', 'act': ['restart_task']}, {'at': 'q', 'act': end}])
                 plist.append([{'at': s0, 'act': ['abort_task']}, {'at': 'q', 'act': end}])
+                # ... terminated in the very loop iteration in which the stepping task was cancelled (the cancellation not delivered yet)
+                plist.append([{'at': s0, 'act': ['pause', 'p']}, {'at': 'q', 'act': ['abort_task']}, {'at': 'q+', 'act': end}])
+                plist.append([{'at': s0, 'act': ['abort_task']}, {'at': 'q+', 'act': end}])
                 plist.append([{'at': s0, 'act': ['abort_task']}, {'at': 'q', 'act': ['restart_task']}, {'at': 'q', 'act': end}])
         # requests made from inside the process's own exit hooks, which do not raise (in the middle of a transition: the state being left
         # has not been left yet, the next one is not entered yet), alone and followed by a request at the next quiescent point
